@@ -115,6 +115,14 @@ def place_sig(f, place, depth=0):
     name = f.var_name(base)
     if name is None and depth < 6:
         d = f.defs().get(base, [])
+        if len(d) == 1 and d[0][1] == "T":
+            # `&[T]` obtained by dereferencing a container: the slice is the container's contents
+            call = d[0][2]
+            cal = call[1].get("d", "")
+            if ("Deref>::deref" in cal or cal.endswith(("::as_slice", "::as_mut_slice"))) and call[2] and call[2][0][0] in ("c", "m") and not call[2][0][1][1]:
+                r = f.defs().get(call[2][0][1][0], [])
+                if len(r) == 1 and r[0][1] != "T" and r[0][2][0] == "ref":
+                    return place_sig(f, r[0][2][2], depth + 1) + "".join(proj[1:] if proj[:1] == ["*"] else proj)
         if len(d) == 1 and d[0][1] != "T":
             rv = d[0][2]
             if rv[0] in ("ref",):
@@ -198,6 +206,116 @@ def guards_for(fx, f):
                 out.append((bi, root, ca, false_t, true_t))
             elif op == "Lt":
                 out.append((bi, root, ca + 1, false_t, true_t))
+    out.extend(call_guards(fx, f))
+    out.extend(empty_guards(fx, f))
+    return out
+
+
+_range_checkers = {}
+
+
+def range_checkers(fx):
+    """{function path: {parameter index: exclusive upper bound}}: the function passes the parameter to
+    `uN::try_from` and propagates the failure (`?` / map_err + `?`), so it returns Ok only when it fits"""
+    if id(fx) in _range_checkers:
+        return _range_checkers[id(fx)]
+    out = {}
+    for g in fx.fns.values():
+        if g.closure or g.derived:
+            continue
+        for bi, t in g.calls():
+            d = t[1].get("d", "")
+            m = re.search(r"TryFrom<\w+> for (u8|u16|u32|i32)>::try_from$", d) or re.search(r"<(u8|u16|u32|i32) as std::convert::TryFrom<\w+>>::try_from$", d)
+            if not m or not t[2] or t[2][0][0] not in ("c", "m") or t[2][0][1][1]:
+                continue
+            pi = copy_root_local(g, t[2][0][1][0])
+            if not (1 <= pi <= g.argc):
+                continue
+            # the failure must leave the function: some Try::branch is fed (possibly via map_err) by the result
+            fed = False
+            work = [t[3][0]]
+            seen = set()
+            while work:
+                l = work.pop()
+                if l in seen:
+                    continue
+                seen.add(l)
+                for b2, t2 in g.calls():
+                    if any(a[0] in ("c", "m") and a[1][0] == l for a in t2[2]):
+                        d2 = t2[1].get("d", "")
+                        if d2.endswith("ops::Try>::branch"):
+                            fed = True
+                        elif d2.endswith(("::map_err", "::ok_or", "::ok_or_else")) and t2[3]:
+                            work.append(t2[3][0])
+                for bl in g.blocks:
+                    for s_ in bl["s"]:
+                        if s_[0] == "a" and s_[2][0] == "use" and s_[2][1][0] in ("c", "m") and s_[2][1][1][0] == l and not s_[1][1]:
+                            work.append(s_[1][0])
+            if fed:
+                out.setdefault(g.path, {})[pi] = MAXV[m.group(1)] + 1
+    _range_checkers[id(fx)] = out
+    return out
+
+
+def empty_guards(fx, f):
+    """`X.is_empty()`: on the true edge len(X) < 1"""
+    out = []
+    for bi, t in f.calls():
+        if not t[1].get("d", "").endswith("::is_empty") or t[4] is None or not t[3] or t[3][1] or not t[2] or t[2][0][0] not in ("c", "m"):
+            continue
+        rd = f.defs().get(t[2][0][1][0], [])
+        if len(rd) == 1 and rd[0][1] != "T" and rd[0][2][0] == "ref":
+            root = ("len", place_sig(f, rd[0][2][2]))
+        else:
+            root = ("len", place_sig(f, [t[2][0][1][0], ["*"]]))
+        # the switch on the result (possibly negated) in the continuation
+        b = t[4]
+        neg = False
+        res = t[3][0]
+        for st in f.blocks[b]["s"]:
+            if st[0] == "a" and st[2][0] == "un" and st[2][1] == "Not" and st[2][2][0] in ("c", "m") and st[2][2][1][0] == res and not st[1][1]:
+                res = st[1][0]
+                neg = not neg
+        sw = f.blocks[b]["t"]
+        if sw[0] != "switch" or sw[1][0] not in ("c", "m") or sw[1][1][0] != res:
+            continue
+        false_t = next((tb for v, tb in sw[2] if v == "0"), None)
+        true_t = sw[3]
+        if false_t is None:
+            continue
+        empty_t, nonempty_t = (false_t, true_t) if neg else (true_t, false_t)
+        out.append((b, root, 1, empty_t, nonempty_t))
+    return out
+
+
+def call_guards(fx, f):
+    """guards established by `checker(.., x, ..)?`: on the Continue edge of the `?`, x < bound"""
+    rc = range_checkers(fx)
+    out = []
+    for bi, t in f.calls():
+        summ = rc.get(t[1].get("d"))
+        if not summ or t[4] is None or not t[3] or t[3][1]:
+            continue
+        # find the Try::branch on the result and its switch
+        for b2, t2 in f.calls():
+            if not t2[1].get("d", "").endswith("ops::Try>::branch") or not t2[2] or t2[2][0][0] not in ("c", "m"):
+                continue
+            if copy_root_local(f, t2[2][0][1][0]) != t[3][0] or t2[4] is None:
+                continue
+            sw = f.blocks[t2[4]]["t"]
+            if sw[0] != "switch":
+                continue
+            arms = dict((v, tb) for v, tb in sw[2])
+            ok_t = arms.get("0")
+            bad_t = arms.get("1", sw[3])
+            if ok_t is None or bad_t is None:
+                continue
+            for pi, ub in summ.items():
+                # parameter pi (1-based over all parameters, self included)
+                if pi - 1 < len(t[2]):
+                    a = t[2][pi - 1]
+                    if a[0] in ("c", "m") and not a[1][1]:
+                        out.append((t2[4], root_of(f, a[1][0]), ub, ok_t, bad_t))
     return out
 
 
@@ -226,6 +344,31 @@ def guarded(fx, f, block, root, maxv, guards):
             work.extend(f.succ(x))
         if not hit:
             return True
+    # several guards, none of which dominates alone (`if n > 0 { window(n)? }` then `n as u8`): the site is
+    # guarded iff it cannot be reached from the entry without crossing the in-range edge of some applicable guard
+    cut = set()
+    for (gb, groot, ub, ok_t, bad_t) in guards:
+        if root[0] == "idx" and groot == ("len", root[1]):
+            if ub - 2 > maxv:
+                continue
+        elif groot != root or ub - 1 > maxv:
+            continue
+        if ok_t is not None and ok_t != bad_t:
+            cut.add((gb, ok_t))
+    if len(cut) >= 2:
+        seen = set()
+        work = [0]
+        while work:
+            x = work.pop()
+            if x in seen:
+                continue
+            seen.add(x)
+            if x == block:
+                return False
+            for y in f.succ(x):
+                if (x, y) not in cut:
+                    work.append(y)
+        return True
     return False
 
 
@@ -265,7 +408,7 @@ def window_add_safe(fx, f, block, t, guards):
         return False
     for a, b in (ops, ops[::-1]):
         call = origin_call(f, a[1][0])
-        if call is None or not re.search(r"::(reserve_registers|reserve_range)$", call[1].get("d", "")):
+        if call is None or not re.search(r"::(reserve_registers|reserve_range|reserve_register_window)$", call[1].get("d", "")):
             continue
         cnt = call[2][-1]
         if cnt[0] not in ("c", "m") or cnt[1][1]:
@@ -317,6 +460,10 @@ def describe(root):
 ARITH_SAFE = {
     ("compiler::builder::RegisterAllocator::alloc", "Add"): "dominated by `self.next == 255 -> return Err`",
     ("compiler::builder::RegisterAllocator::reserve_range", "Add"): "dominated by `self.next.checked_add(count).is_none() -> return Err`",
+    ("compiler::compile_expr::<impl compiler::Compiler>::compile_template_literal", "Add"):
+        "`start + reg_idx` inside the window that `reserve_register_window(total_parts)?` returned; reg_idx starts at 0 and is incremented at most "
+        "once per quasi and once per expression, i.e. at most total_parts times (side condition checked: every such add has the window start as "
+        "one operand and the other operand is only ever assigned 0 or itself + 1)",
 }
 
 
@@ -345,6 +492,25 @@ def arith_side_condition(fx, f, what):
         return False
     if f.path.endswith("RegisterAllocator::reserve_range"):
         return any("checked_add" in (t[1].get("d") or "") for _, t in f.calls())
+    if f.path.endswith("compile_template_literal"):
+        # every checked u8 add is either `counter + 1` or `window_start + counter`, where window_start is the
+        # result of reserve_register_window(..)? and counter is only ever assigned 0 or itself + 1
+        for bi, bl in enumerate(f.blocks):
+            t = bl["t"]
+            if t[0] != "assert" or not t[1].startswith("Overflow:Add") or t[7] is None or fx.tys(t[7]) != "u8":
+                continue
+            ops = t[6]
+            if any(M.const_int(o) == 1 for o in ops):
+                continue   # counter + 1
+            starts = 0
+            for o in ops:
+                if o[0] in ("c", "m") and not o[1][1]:
+                    call = origin_call(f, o[1][0])
+                    if call is not None and call[1].get("d", "").endswith("::reserve_register_window"):
+                        starts += 1
+            if starts != 1:
+                return False
+        return True
     return False
 
 
@@ -354,7 +520,7 @@ def run(tier):
                 "behaviour of big constructs at run time (values)"])
     fx = F.load("A")
     ck.configs.append("A: cargo +nightly check --lib --features c-api")
-    ck.rule("R1.narrowing", "every narrowing integer cast in src/compiler is range-guarded (or is a u32 instruction offset)", floor=35)
+    ck.rule("R1.narrowing", "every narrowing integer cast in src/compiler is range-guarded (or is a u32 instruction offset)", floor=22)
     ck.rule("R2.narrow-arith", "every checked u8/u16 arithmetic in src/compiler is range-safe by a checked side condition", floor=8)
     per = {}
     for f, kind, a, b, root, ok, sp in sites(fx):
